@@ -4,6 +4,7 @@ VIEW View
 CONSTANTS
   MAXR = 2
   QueuedMs = {0, 150}
+  Deadlines = {0, 3, 1000}
   AT = 2
   Horizon = 9
   RespStopsWait = TRUE
